@@ -176,7 +176,7 @@ def run(modname, tier, seed, procs=None, max_seconds=None, chunk=200, max_violat
                 pending.append(pool.apply_async(_work, (ch,)))
             if not pending:
                 break
-            res = pending.pop(0).get()
+            res = pending.pop(0).get(timeout=900)
             n_eval += res[0]
             for cv in res[1]:
                 sig_count[cv[1]["sig"]] = sig_count.get(cv[1]["sig"], 0) + 1
